@@ -16,13 +16,14 @@ VACUITY = dict(need_ok=['eq', 'ne', 'hash', 'set', 'dict', 'promotable', 'nonpro
 HASHABLE = ('Bits', 'ConstBitStream')
 
 LONG_LENGTHS = (1999, 2000, 2001, 2047, 3599, 3600, 3601, 4000)
+LONG_LENGTHS_T = tuple(range(1992, 2010)) + (2047, 2048, 2049) + tuple(range(3592, 3610)) + (4000, 8191, 8192, 8193, 16385)
 
 
 def describe(tier):
     q = tier == 'quick'
-    return dict(bounds=dict(small_contents='all contents of length <= %d' % (4 if q else 5), classes=list(CLASSES),
+    return dict(bounds=dict(small_contents='all contents of length <= %d' % (4 if q else 7), classes=list(CLASSES),
                             routes=list(routes.ROUTES) if not q else 'every route of bsmc.routes (memory and file-backed)',
-                            long_lengths=list(LONG_LENGTHS), long_variants='base pattern and variants differing in bit 0, 799, 800, L/2, L-801, L-800, L-1 '
+                            long_lengths=list(LONG_LENGTHS if q else LONG_LENGTHS_T), long_variants='base pattern and variants differing in bit 0, 799, 800, L/2, L-801, L-800, L-1 '
                                                                             'and in length by +-1, built through %d routes' % (4 if q else 8),
                             triples='all triples over contents of length <= 2 x class triples with promotable middles'),
                 rule='every ordered pair of objects in the bound is compared once in both directions; non-trivial = pair of *different objects* '
@@ -33,10 +34,10 @@ def describe(tier):
 def shards(tier, seed):
     q = tier == 'quick'
     out = []
-    conts = list(families.all_bits(4 if q else 5))
+    conts = list(families.all_bits(4 if q else 7))
     for part in families.chunk(conts, len(conts)):
-        out.append(dict(kind='small', left=part, n=4 if q else 5))
-    for L in LONG_LENGTHS:
+        out.append(dict(kind='small', left=part, n=4 if q else 7))
+    for L in (LONG_LENGTHS if q else LONG_LENGTHS_T):
         out.append(dict(kind='long', L=L, seed=seed))
     out.append(dict(kind='other'))
     out.append(dict(kind='triples'))
